@@ -6,10 +6,10 @@
     A <lineNo> <FEE|ROY|CMP|VALIDATE|CPMSG> agree=<0|1> O=<…|->
     E <lineNo> <reason>            (line could not be parsed)
 -/
-import Fuzion.Driver.Compare
+import Fuzion.Driver.Oracles
 import Fuzion.Model.Proto
 namespace Fuzion.Run
-open Fuzion Fuzion.Codec Fuzion.Cmp
+open Fuzion Fuzion.Codec Fuzion.Cmp Fuzion.Orc
 
 structure DState where
   cur : World := default
@@ -54,15 +54,6 @@ def creationIds : Op → Option Nat × Option Nat
   | .send721 _ _ _ (some (.createListing id _)) => (some id, none)
   | .send721 _ _ _ (some (.createBucket id)) => (none, some id)
   | _ => (none, none)
-
-/-- a receive hook called directly (`exec`) is forged by definition: honest tokens only call it
-    from inside `send20` / `send721`. Callers that are not contracts get the prefix `acct.` -/
-def isForgedHook (w : World) : Op → Option (Nat × String)
-  | .exec s _ (.receive _ _ i) =>
-    some (s, (if (w.kindOf s).isSome then "" else "acct.") ++ "RC." ++ innerTag i)
-  | .exec s _ (.receiveNft _ _ i) =>
-    some (s, (if (w.kindOf s).isSome then "" else "acct.") ++ "RN." ++ innerTag i)
-  | _ => none
 
 /-- (listing id, bucket id) an op is aimed at -/
 def opTargets : Op → Option Nat × Option Nat
@@ -158,55 +149,19 @@ def processStep (st : DState) (si : StepIn) : DState × String := Id.run do
   if !(si.idxOk && pw.mkt.registry == some pw.regAddr) then orc := orc ++ ["oIdx"]
   let sender := opSender si.op
   -- C04: nobody else's wallet decreases
-  if !walletsKept cur pw (fun y => some y != sender && y != cur.self) then orc := orc ++ ["o04"]
+  if !oracle04 cur pw si.op then orc := orc ++ ["o04"]
   -- C19: a non-deposit op never debits its sender
-  if !isDepositOp si.op then
-    if !walletsKept cur pw (fun y => some y == sender && y != cur.self) then orc := orc ++ ["o19"]
-  -- C04: records filed under somebody other than the acting wallet are untouched, except the
-  -- finalized listing (and nothing else) that a purchase takes
-  let actorOf : Option Nat := match si.op with
-    | .exec s _ (.receive (.valid u) _ _) => if cur.isHonest20 s then some u else some s
-    | .exec s _ (.receiveNft (.valid u) _ _) => if cur.isHonest721 s then some u else some s
-    | .exec s _ _ => some s
-    | .send20 _ s _ _ => some s
-    | .send721 _ s _ _ => some s
-    | _ => none
-  -- (a hook called directly by a *contract* is the C18 matter and judged there; by an account it is C04's)
-  let contractForges := match isForgedHook cur si.op with
-    | some (caller, _) => (cur.kindOf caller).isSome
-    | none => false
-  if !contractForges then
-    match actorOf with
-    | some actor =>
-      let boughtLid : Option Nat := match si.op with | .exec _ _ (.buy lid _) => some lid | _ => none
-      let lOk := cur.mkt.listings.all (fun p =>
-        p.1.1 == actor || alookup p.1 pw.mkt.listings == some p.2 ||
-        (boughtLid == some p.2.id && p.2.status == .finalized &&
-          (match p.2.expiresAt with | some e => decide (cur.nowNs ≤ e) | none => false)))
-      let bOk := cur.mkt.buckets.all (fun p => p.1.1 == actor || alookup p.1 pw.mkt.buckets == some p.2)
-      if !(lOk && bOk) then orc := orc ++ ["o04r"]
-    | none =>
-      if !(canonListings cur.mkt.listings == canonListings pw.mkt.listings &&
-           canonBuckets cur.mkt.buckets == canonBuckets pw.mkt.buckets) then orc := orc ++ ["o04r"]
+  if !oracle19 cur pw si.op then orc := orc ++ ["o19"]
+  -- C04: records filed under somebody other than the acting wallet are untouched (Oracles.lean)
+  if !oracle04r cur pw si.op then orc := orc ++ ["o04r"]
   if !monotone08 cur pw then orc := orc ++ ["o08"]
-  if !(subsetNats cur.mkt.listingUsed pw.mkt.listingUsed && subsetNats cur.mkt.bucketUsed pw.mkt.bucketUsed) then
-    orc := orc ++ ["o09m"]
+  if !oracle09m cur pw then orc := orc ++ ["o09m"]
   -- C13
-  let feeChanged := !(cur.mkt.feeKind == pw.mkt.feeKind && cur.mkt.feeSince == pw.mkt.feeSince)
-  if feeChanged then
-    let isFC := match si.op with | .exec _ _ .feeCycle => true | _ => false
-    let good := isFC && io.ok && cur.mkt.feeKind != pw.mkt.feeKind && pw.mkt.feeSince == cur.nowNs / NS &&
-                decide (cur.nowNs / NS > cur.mkt.feeSince + WEEK)
-    if !good then orc := orc ++ ["o13"]
+  if !oracle13 cur pw si.op io.ok then orc := orc ++ ["o13"]
   -- C16: a cycle accepted before the `next_change` the fee query announces for this state
-  match si.op with
-  | .exec _ _ .feeCycle =>
-    if io.ok && decide (cur.nowNs / NS < (qFeeDenom cur.mkt cur.env).nextChange) then orc := orc ++ ["o16n"]
-  | _ => pure ()
+  if !oracle16n cur si.op io.ok then orc := orc ++ ["o16n"]
   -- C14
-  let regChanged := !(canonReg cur.reg == canonReg pw.reg)
-  let isR := match si.op with | .royalty .. => true | _ => false
-  if regChanged && !(isR && io.ok) then orc := orc ++ ["o14"]
+  if !oracle14 cur pw si.op io.ok then orc := orc ++ ["o14"]
   if !pw.reg.all (fun p => bpsOk p.2.bps) then orc := orc ++ ["o14b"]
   -- sub-message shape
   if !io.subs.all (fun s => s.1 == 0 && s.2.1 == 0 && !s.2.2) then orc := orc ++ ["oSub"]
@@ -252,23 +207,7 @@ def processStep (st : DState) (si : StepIn) : DState × String := Id.run do
   if adopt && !ghostOk pw st'.charged then orc := orc ++ ["o10"]
   -- C10: the pool messages of a response are exactly the recorded fees that leave the records
   if (io.ok || !io.msgs.isEmpty) && si.fault.isNone then
-    let expectPool : Option (List (List Nat)) := match si.op with
-      | .exec _ _ (.withdrawPurchased lid) =>
-        (match findById lid cur.mkt.listings with
-         | some (_, l) => some (match l.fee with | some f => [[4, cur.self, f.key, f.amount]] | none => [])
-         | none => none)
-      | .exec _ _ (.removeBucket bid) =>
-        (match cur.mkt.buckets.find? (fun (p : (Nat × Nat) × Bucket) => decide (p.1.2 = bid)) with
-         | some (_, b) => some (match b.fee with | some f => [[4, cur.self, f.key, f.amount]] | none => [])
-         | none => none)
-      | .exec _ _ (.buy _ bid) =>
-        (match cur.mkt.buckets.find? (fun (p : (Nat × Nat) × Bucket) => decide (p.1.2 = bid)) with
-         | some (_, b) => some (match b.fee with | some f => [[4, cur.self, f.key, f.amount]] | none => [])
-         | none => none)
-      | _ => some []
-    match expectPool with
-    | some e => if poolCodes (sortCodes (io.msgs.map implMsgCode)) != sortCodes e then orc := orc ++ ["o10m"]
-    | none => pure ()
+    if !oracle10m cur si.op (sortCodes (io.msgs.map implMsgCode)) then orc := orc ++ ["o10m"]
     -- a pool message that does not decode / names another depositor (the chain rejects it)
     if io.msgs.any (fun m => match m with | .pool false _ _ => true | .pool true d _ => d != cur.self | _ => false) then
       orc := orc ++ ["o10d"]
